@@ -656,3 +656,65 @@ pub fn c13_parse(sk: &Skeleton) -> Leaf {
     }
     leaf
 }
+
+// ------------------------------------------------------------------------------------------------ SHIM (setup)
+/// Differential validation of the symbolic rust_decimal stand-in against the real crate: the same concrete operations are
+/// evaluated by both builds (`symx run SHIM` / `replay run SHIM`) and the driver compares the printed results.
+pub fn shim_probe(_sk: &Skeleton) -> Leaf {
+    let mut leaf = Leaf { outcome: "ok".into(), ..Default::default() };
+    let lits = [
+        "0", "1", "-1", "0.5", "-0.5", "0.005", "-0.005", "0.015", "0.025", "-0.025", "1.005", "2.675", "123456.789", "-123456.789", "0.0000001", "1000000", "99.995",
+        "0.125", "0.135", "7", "3", "0.3", "12.3450", "100.00", "-0.00", "19.999", "0.045", "-2.5", "2.5", "3.5", "1234567.891",
+    ];
+    let vals: Vec<Decimal> = lits.iter().map(|s| Decimal::from_str(s).expect("literal")).collect();
+    let mut out: Vec<String> = Vec::new();
+    let strategies = [
+        RoundingStrategy::MidpointNearestEven,
+        RoundingStrategy::MidpointAwayFromZero,
+        RoundingStrategy::MidpointTowardZero,
+        RoundingStrategy::ToZero,
+        RoundingStrategy::AwayFromZero,
+        RoundingStrategy::ToNegativeInfinity,
+        RoundingStrategy::ToPositiveInfinity,
+    ];
+    for (i, a) in vals.iter().enumerate() {
+        out.push(format!("str {} = {}", lits[i], a));
+        out.push(format!("abs {} = {}", lits[i], a.abs()));
+        out.push(format!("neg {} = {}", lits[i], -*a));
+        out.push(format!("zero? {} = {} neg? {}", lits[i], a.is_zero(), *a < Decimal::ZERO));
+        for dp in [0u32, 1, 2, 4] {
+            out.push(format!("round_dp({dp}) {} = {}", lits[i], a.round_dp(dp)));
+            for st in strategies {
+                out.push(format!("round({dp},{st:?}) {} = {}", lits[i], a.round_dp_with_strategy(dp, st)));
+            }
+        }
+        out.push(format!("fmt.2 {} = {:.2}", lits[i], a));
+        out.push(format!("fmt.0 {} = {:.0}", lits[i], a));
+        out.push(format!("fmt.4 {} = {:.4}", lits[i], a));
+        out.push(format!("trunc {} = {} floor {} ceil {}", lits[i], a.trunc(), a.floor(), a.ceil()));
+        for (j, b) in vals.iter().enumerate() {
+            out.push(format!("add {} {} = {}", lits[i], lits[j], *a + *b));
+            out.push(format!("sub {} {} = {}", lits[i], lits[j], *a - *b));
+            out.push(format!("mul {} {} = {}", lits[i], lits[j], *a * *b));
+            if !b.is_zero() {
+                out.push(format!("div {} {} = {}", lits[i], lits[j], *a / *b));
+            }
+            out.push(format!("cmp {} {} = {:?} eq {} min {} max {}", lits[i], lits[j], a.cmp(b), a == b, (*a).min(*b), (*a).max(*b)));
+        }
+    }
+    let s: Decimal = vals.iter().sum();
+    out.push(format!("sum = {s}"));
+    for bad in ["", ".", "1.2.3", "abc", "1e5", "--1", "1 2", "+", "-"] {
+        out.push(format!("parse {:?} ok={}", bad, Decimal::from_str(bad).is_ok()));
+    }
+    for good in ["+5", "007", "1.", ".5", "1_000", "0.10"] {
+        out.push(format!("parse {:?} = {:?}", good, Decimal::from_str(good).map(|d| d.to_string()).map_err(|_| "err")));
+    }
+    let js = serde_json::to_string(&vals[10]).unwrap_or_default();
+    out.push(format!("json {js}"));
+    for src in ["\"1.50\"", "1.5", "3", "-2"] {
+        out.push(format!("from json {src} = {:?}", serde_json::from_str::<Decimal>(src).map(|d| d.to_string()).map_err(|_| "err")));
+    }
+    leaf.extra = json!({"lines": out});
+    leaf
+}
